@@ -11,12 +11,17 @@ run `B12` issues all 2^24 handles of one archetype; `conv` / `cmp` / `dump` line
 Only the obligation lists live here.
 -/
 import Gecs.Lemmas.GenExprs
+import Gecs.Lemmas.GenVersion
 
 -- OBLIGATIONS(C08): Gecs.gen_expr_pack_key Gecs.gen_expr_pack_key_raw Gecs.gen_expr_pack_key_inj Gecs.gen_expr_trimmed
 -- OBLIGATIONS(C14): Gecs.gen_expr_pack_key Gecs.gen_expr_key_id Gecs.gen_expr_key_index Gecs.gen_expr_hash_word
 -- OBLIGATIONS(C03): Gecs.gen_expr_slot_decode Gecs.gen_expr_slot_encode Gecs.gen_expr_trimmed Gecs.gen_expr_key_index
 -- OBLIGATIONS(C01): Gecs.gen_expr_slot_decode Gecs.gen_expr_slot_encode Gecs.gen_expr_key_index
 -- OBLIGATIONS(C12): Gecs.gen_expr_trimmed
+-- OBLIGATIONS(C08): Gecs.gen_version_step Gecs.gen_version_step_spec
+-- OBLIGATIONS(C09): Gecs.gen_version_step
+-- OBLIGATIONS(C10): Gecs.gen_version_step Gecs.gen_version_step_spec
+-- OBLIGATIONS(C19): Gecs.gen_version_step Gecs.gen_version_step_spec
 
 namespace Gecs
 #check @gen_expr_pack_key
